@@ -174,6 +174,9 @@ def arbiters(ctx):
             c = x.value_conj_keys(ce[0].value, False)
             exp = {"~controller.bank%d.valid" % b, "~controller.bank%d.lock" % b}
             ob.instance("crossbar arbiter %d/%d" % (b, nb), sorted(c))
+            if exp - c:
+                ob.refute("xbar-ce-missing:%d/%d" % (b, nb), "bank %d's arbiter can advance under %s, without %s: the grant can move while a command of the granted master is still "
+                          "queued or in flight, its data strobe then goes to another port and the first port waits for ever" % (b, sorted(c), sorted(exp - c)), ce[0].loc)
             if c - exp:
                 # positive witness: the extra condition is about the master the grant currently rests on (its lock / its other banks)
                 if any(re.search(r"master|grant", a) for a in c - exp):
